@@ -31,6 +31,14 @@ def reentry_case(rep, drv, rnd, i):
     kyx = ('call', 'k', [V('Y'), V('X')])
     ifthen = ('ite', ('call', 'c', [V('X')]), yes)
     wrapped = rnd.choice([('conj', 'tru', ifthen), ('conj', ifthen, 'tru'), ('conj', 'tru', ('conj', ifthen, 'tru'))])
+    eq = lambda a, b: ('call', '=', [a, b])
+    prog += [
+        # branches whose goals read alike but are different terms: the atom 'Y' and the variable Y, ...
+        ('lk1', [V('Z'), V('Y')], ('disj', eq(V('Z'), ('A', 'Y')), eq(V('Z'), V('Y')))),
+        ('lk2', [V('Z')], ('disj', eq(V('Z'), ('F', 'f', [('A', 'a')])), ('disj', eq(V('Z'), ('A', 'f(a)')), eq(V('Z'), ('L', [('A', 'a')]))))),
+        ('lk3', [V('Z'), V('W')], ('disj', ('ite', ('call', 'c', [V('Z')]), eq(V('W'), ('A', '_'))), eq(V('W'), ('_',)))),
+        ('lk4', [V('Z'), V('X')], ('conj', ('disj', ('call', 'c', [V('X')]), 'tru'), ('disj', eq(V('Z'), ('A', 'X')), eq(V('Z'), V('X'))))),
+    ]
     prog += [
         # `true , (C -> T)` next to `;` is a disjunction of an if-then and E, not an if-then-else
         ('t6', [V('X'), V('R')], ('disj', wrapped, no)),
@@ -44,7 +52,7 @@ def reentry_case(rep, drv, rnd, i):
                                   ('conj', ('call', 'c', [V('X')]), ('conj', ('disj', ('ite', hx, yes), no), test(('call', 'k', [V('X'), V('X')])))))),
     ]
     ops = [('load', 'overwrite', prog)]
-    for name, ar in [('t1', 2), ('t2', 3), ('t3', 1), ('t4', 2), ('t5', 2), ('t6', 2), ('t7', 2)]:
+    for name, ar in [('t1', 2), ('t2', 3), ('t3', 1), ('t4', 2), ('t5', 2), ('t6', 2), ('t7', 2), ('lk1', 2), ('lk2', 1), ('lk3', 2), ('lk4', 2)]:
         ops.append(('query', name, ('all',), [[Sym('v'), j] for j in range(ar)]))
     rep.count('re-entered-constructs')
     if scen.three_way(rep, drv, ops, 'case %d re-entry' % i) == 'ok':
